@@ -232,11 +232,13 @@ def handleOp (op : String) (j : Json) : Except String Json := do
       let outs ← cols.toList.mapM fun c => do
         let steps ← (← (← c.getObjVal? "steps").getArr?).toList.mapM getStep
         match ← getFin st c with
-        | .error e => pure (Json.mkObj [("err", errS e)])
+        | .error e => pure (Json.mkObj [("err", errS e), ("must_accept", false)])
         | .ok fin =>
+          -- `must_accept`: the property (with its own constants, not the generated ones) obliges the translator
+          let must := specAccepts reg rootElem steps fin
           match runCol reg rootElem steps fin with
-          | .ok o => pure (Json.mkObj [("ok", colOutJ o)])
-          | .error e => pure (Json.mkObj [("err", errS e)])
+          | .ok o => pure (Json.mkObj [("ok", colOutJ o), ("must_accept", must)])
+          | .error e => pure (Json.mkObj [("err", errS e), ("must_accept", must)])
       pure (Json.mkObj [("cols", Json.arr outs.toArray)])
   else if op == "spec_frag" then
     let st := nsStateOf (← getEnumDefs j)
